@@ -51,6 +51,18 @@ fn main() {
                 }
             }
         }
+        "in-domain" => {
+            // debugging aid: is the case in FILE inside the property's domain?
+            let prop = props::lookup(args.get(2).map(|s| s.as_str()).unwrap_or("")).unwrap_or_else(|| usage());
+            let Some(path) = args.get(3) else { usage() };
+            match engine::read_replay(path) {
+                Ok((case, _)) => println!("{}", prop.in_domain(&case)),
+                Err(e) => {
+                    eprintln!("INFRA: {e}");
+                    std::process::exit(2);
+                }
+            }
+        }
         "replay" => {
             let prop = props::lookup(args.get(2).map(|s| s.as_str()).unwrap_or("")).unwrap_or_else(|| usage());
             let Some(path) = args.get(3) else { usage() };
